@@ -359,8 +359,11 @@ def install(ip):
 
     @reg('dict.get')
     def _get(ip, args, kw):
-        d, k = args[0], ip.hashable(args[1])
-        return d.get(k, args[2] if len(args) > 2 else None)
+        d, k = args[0], ip.dkey(args[0], args[1])
+        for kk in d:
+            if kk is k or (hash(kk) == hash(k) and kk == k):
+                return d[kk]
+        return args[2] if len(args) > 2 else None
 
     @reg('dict.update')
     def _update(ip, args, kw):
@@ -487,15 +490,33 @@ def install(ip):
             return tuple(x)
         return (x,)
 
+    def _want_dtype(args, kw, pos, default):
+        dt = kw.get('dtype', args[pos] if len(args) > pos else None)
+        if dt is None:
+            return default
+        want = _dtype_name(dt)
+        if want is None:
+            raise Unsupported('dtype %r' % (dt,))
+        return want
+
+    def _const_of(v, dtype):
+        if dtype == 'real':
+            return z3.RealVal(v)
+        if dtype == 'bool':
+            return bool(v)
+        return int(v)
+
     @reg('numpy.zeros')
     def _zeros(ip, args, kw):
         shp = shape_arg(args[0])
-        return ip.st.new_array(shp, lambda idx: z3.RealVal(0))
+        dt = _want_dtype(args, kw, 1, 'real')
+        return ip.st.new_array(shp, lambda idx: _const_of(0, dt), dt)
 
     @reg('numpy.ones')
     def _ones(ip, args, kw):
         shp = shape_arg(args[0])
-        return ip.st.new_array(shp, lambda idx: z3.RealVal(1))
+        dt = _want_dtype(args, kw, 1, 'real')
+        return ip.st.new_array(shp, lambda idx: _const_of(1, dt), dt)
 
     @reg('numpy.zeros_like')
     def _zeros_like(ip, args, kw):
@@ -504,7 +525,8 @@ def install(ip):
             if is_num(a):
                 return Fraction(0)
             a = ip.as_array(a)
-        return ip.st.new_array(a.shape, lambda idx: z3.RealVal(0) if a.dtype != 'int' else 0, a.dtype if a.dtype != 'bool' else 'bool')
+        dt = _want_dtype(args, kw, 1, a.dtype)
+        return ip.st.new_array(a.shape, lambda idx: _const_of(0, dt), dt)
 
     @reg('numpy.ones_like')
     def _ones_like(ip, args, kw):
@@ -513,7 +535,8 @@ def install(ip):
             if is_num(a):
                 return Fraction(1)
             a = ip.as_array(a)
-        return ip.st.new_array(a.shape, lambda idx: z3.RealVal(1) if a.dtype != 'int' else 1, a.dtype)
+        dt = _want_dtype(args, kw, 1, a.dtype)
+        return ip.st.new_array(a.shape, lambda idx: _const_of(1, dt), dt)
 
     @reg('numpy.full_like')
     def _full_like(ip, args, kw):
@@ -909,9 +932,17 @@ def install(ip):
         evaluations is exposed) followed by the final evaluation at an arbitrary x."""
         F = args[0]
         x0 = ip.unopt(args[1])
-        if not isinstance(x0, SArr) or len(x0.shape) != 1:
+        if len(args) > 2:
+            raise Unsupported('scipy.optimize.root with more positional arguments')
+        for bad in ('args', 'jac', 'tol', 'callback'):
+            if kw.get(bad) is not None:
+                raise Unsupported('scipy.optimize.root(%s=...)' % bad)
+        if is_num(x0) or (is_sym(x0) and not z3.is_bool(x0)):
+            n = 1                   # a scalar start value: scipy works on the 1-vector [x0]
+        elif isinstance(x0, SArr) and len(x0.shape) == 1:
+            n = x0.shape[0]
+        else:
             raise Unsupported('scipy.optimize.root with a non-vector initial guess')
-        n = x0.shape[0]
         ip.st.root_calls = getattr(ip.st, 'root_calls', 0) + 1
         k = ip.st.root_calls
 
